@@ -151,6 +151,26 @@ func c02Cases(env *Env, rep *Report) []c02Case {
 	if e, ok := cl["exp"].(float64); !ok || time.Unix(int64(e), 0).After(t0.Add(301*time.Second)) {
 		rep.violate("C02/minted-token-lives-longer-than-five-minutes", fmt.Sprintf("exp=%v minted at %v", cl["exp"], t0.Unix()), map[string]any{"noreplay": true})
 	}
+	// ... whatever the identity says about the lifetime of the login or of the IdP's access token
+	for _, d := range []time.Duration{-time.Hour, time.Minute, 299 * time.Second, 301 * time.Second, time.Hour, 24 * 365 * time.Hour} {
+		ctx2, _ := c02Ctx()
+		id2 := identity.FromCtx(ctx2)
+		id2.SetExpiry(t0.Add(d))
+		id2.SetAuthTime(t0.Add(-d))
+		tok, err := security.GeneratePAAToken(ctx2, "alice", hostA+":3389")
+		rep.add("executions", 1)
+		if err != nil {
+			continue
+		}
+		var cl2 map[string]any
+		if sg := strings.Split(tok, "."); len(sg) == 3 {
+			b, _ := b64.DecodeString(sg[1])
+			json.Unmarshal(b, &cl2)
+		}
+		if e, ok := cl2["exp"].(float64); !ok || time.Unix(int64(e), 0).After(t0.Add(301*time.Second)) {
+			rep.violate("C02/minted-token-lives-longer-than-five-minutes", fmt.Sprintf("identity expiry %v from now: exp=%v minted at %v", d, cl2["exp"], t0.Unix()), map[string]any{"noreplay": true})
+		}
+	}
 	// (1) single-character substitutions
 	alphabet := "ABCDEFGHIJKLMNOPQRSTUVWXYZabcdefghijklmnopqrstuvwxyz0123456789-_.= "
 	for i := 0; i < len(valid); i++ {
